@@ -7,6 +7,7 @@ import (
 	"os"
 	"runtime/debug"
 	"sort"
+	"strings"
 	"time"
 
 	"htcheck/internal/core"
@@ -21,6 +22,7 @@ func main() {
 	replay := flag.String("replay", "", "replay file: re-run and print only that construct")
 	arch := flag.String("arch", "", "GOARCH override (default: host amd64)")
 	list := flag.Bool("list", false, "list properties with a rule")
+	dump := flag.String("dump", "", "debug: print SSA of in-repo functions whose name contains this string")
 	flag.Parse()
 	if *list {
 		var ids []string
@@ -30,6 +32,19 @@ func main() {
 		sort.Strings(ids)
 		for _, id := range ids {
 			fmt.Println(id)
+		}
+		return
+	}
+	if *dump != "" {
+		p, err := core.Load(*dir, *arch)
+		if err != nil {
+			fmt.Println(err)
+			os.Exit(2)
+		}
+		for _, fn := range p.Funcs() {
+			if strings.Contains(core.FnName(fn), *dump) {
+				fn.WriteTo(os.Stdout)
+			}
 		}
 		return
 	}
